@@ -17,3 +17,5 @@ def run(prog, rep):
     _ru.run_static_memo(prog, rep)
     from ..rules import r_unit as _ru2
     _ru2.run_scale_positions(prog, rep)
+    from ..rules import r_key as _rkx
+    _rkx.run_handles_only(prog, rep)
